@@ -23,7 +23,7 @@ theorem lookup_of_mem {l : List (Nat × Nat)} (hnd : (l.map (·.1)).Nodup) {a b 
     obtain ⟨xa, xb⟩ := x
     simp only [List.map_cons, List.nodup_cons] at hnd
     rcases List.mem_cons.mp h with h | h
-    · cases h; simp [List.lookup_cons]
+    · cases h; simp
     · have hne : (a == xa) = false := by
         simp only [beq_eq_false_iff_ne, ne_eq]
         intro hh
